@@ -1,11 +1,14 @@
 ---- MODULE IGCObs ----
 (* model B for C19: what igc.Read returned for rendered line sequences / arbitrary byte streams, and what
    igc.Read(igc.Encode(track)) returned, decided against the IGC specification. *)
-EXTENDS IGC, Json, IOUtils
+EXTENDS IGC, Json, IOUtils, FiniteSets
 Recs == ndJsonDeserialize(IOEnv.TRACEFILE)
 OK == [ok |-> TRUE, sig |-> ""]
 Bad(s) == [ok |-> FALSE, sig |-> s]
-Whole(r) == r.layout = "L5" /\ r.flatlen = 5 * r.nfix
+\* nores: Read gave no track at all (a nil *T or a nil LineString).  With an error that is a refusal of the input ("error or
+\* well-formed result"); without an error nothing was returned.
+NoRes(r) == "nores" \in DOMAIN r /\ r.nores
+Whole(r) == IF NoRes(r) THEN r.errkind # "nil" ELSE r.layout = "L5" /\ r.flatlen = 5 * r.nfix
 YearClass(ls) == IF \E i \in DOMAIN ls : ls[i].k = "HDTE" /\ ls[i].yy >= 70 THEN "|year70-99" ELSE ""
 \* For an arbitrary record sequence the property demands totality and whole fixes; how many records are reported as
 \* errors, and whether a malformed record still yields a fix, is left to the implementation (a more lenient or a
@@ -17,21 +20,45 @@ StdLine(l) == \/ l.k \in {"A", "H"}
 StdLines(c) == /\ Len(c.lines) > 0 /\ c.lines[1].k = "A"
                /\ \A i \in DOMAIN c.lines : StdLine(c.lines[i])
                /\ \A i \in DOMAIN c.fixes : c.fixes[i][3] = 1
-\* "returns ... the list of record errors": the error of Read is nil or the documented igc.Errors list - there is no other
-\* error an in-memory reader can cause.  (A line beyond the 64 KiB a line scanner buffers is exempt: an implementation may
-\* report the scanner's own error there.)  errkind: "nil", "Errors", or the Go type of anything else.
+\* "returns ... the list of record errors": the error of Read is nil or the documented igc.Errors list (errors.As: a wrapped
+\* list is a list) - there is no other error an in-memory reader can cause.  (A line beyond the 64 KiB a line scanner buffers
+\* is exempt: an implementation may report the scanner's own error there.)  errkind: "nil", "Errors", or the Go type of anything else.
 ErrKindOK(r) == r.errkind \in {"nil", "Errors"} \/ r.maxline > 65535
+\* The day roll-over ("time of day goes backwards => next day") is a mechanism of one decoder, not part of the statement, and
+\* the encoder never writes a file that needs it (it writes a date header on every new day).  Counts and instants are
+\* therefore fixed only for files whose fixes, dated naively by the latest date header, never go backwards; in any other
+\* file a decoder may roll the day, keep the day or report the backward fix as an error.
+RECURSIVE Forward(_, _, _, _)
+Forward(ls, i, day, last) ==               \* day: of the latest date header; last: <<day, sec>> of the previous B record or <<>>
+  IF i > Len(ls) THEN TRUE
+  ELSE IF ls[i].k = "HDTE" THEN Forward(ls, i + 1, DaysFromCivil(Year(ls[i].yy), ls[i].mm, ls[i].dd), last)
+  ELSE IF ls[i].k = "B" THEN (IF last # <<>> /\ Before(<<day, ls[i].sec>>, last) THEN FALSE ELSE Forward(ls, i + 1, day, <<day, ls[i].sec>>))
+  ELSE Forward(ls, i + 1, day, last)
+\* "returns ... its headers": one header per well-formed H record (a colon, a non-empty key, a non-empty value), in file
+\* order, with that record's source and key.  How the rest of the record is split into key extension and value is not stated.
+\* An odd H record (no colon - which includes the date headers -, or an empty value) may be returned as a header (with any
+\* content), skipped, or reported as a record error.
+WellFormedH(l) == l.k = "H" /\ l.colon /\ l.key # "" /\ l.value # ""
+OddH(l) == l.k = "H" /\ ~WellFormedH(l)
+RECURSIVE HdrMatch(_, _, _, _)
+HdrMatch(ls, i, hs, j) ==
+  IF i > Len(ls) THEN j > Len(hs)
+  ELSE IF ls[i].k \notin {"H", "HDTE"} THEN HdrMatch(ls, i + 1, hs, j)
+  ELSE IF WellFormedH(ls[i]) THEN (IF j <= Len(hs) /\ hs[j][1] = ls[i].src /\ hs[j][2] = ls[i].key THEN HdrMatch(ls, i + 1, hs, j + 1) ELSE FALSE)
+  ELSE IF j <= Len(hs) /\ HdrMatch(ls, i + 1, hs, j + 1) THEN TRUE ELSE HdrMatch(ls, i + 1, hs, j)
+NumOddH(ls) == Cardinality({i \in DOMAIN ls : OddH(ls[i])})
 \* c: the case with what the decoder model gives for its lines (nfix, nerr, fixes); judgeTimes: whether the instants are fixed
 VLinesC(r, c, judgeTimes) ==
   IF r.ev # "ok" THEN Bad("igc|decode|" \o r.ev)
   ELSE IF ~Whole(r) THEN Bad("igc|decode|not-whole-fixes")
   ELSE IF ~ErrKindOK(r) THEN Bad("igc|decode|error-kind")
   ELSE IF ~StdLines(c) THEN OK
+  ELSE IF ~Forward(c.lines, 1, 0, <<>>) THEN OK
   ELSE IF r.nfix # c.nfix THEN Bad("igc|decode|fix-count")
-  ELSE IF r.nerr # c.nerr THEN Bad("igc|decode|error-count")
+  \* record errors: none, except that every odd H record may be reported as one
+  ELSE IF r.nerr < c.nerr \/ r.nerr > c.nerr + NumOddH(c.lines) THEN Bad("igc|decode|error-count")
   ELSE IF judgeTimes /\ \E i \in DOMAIN c.fixes : r.times[i] # <<c.fixes[i][1], c.fixes[i][2]>> THEN Bad("igc|decode|timestamp" \o YearClass(c.lines))
-  \* "returns ... its headers": the H records of a standard file, in file order
-  ELSE IF r.hdrs # Headers(c.lines, 1) THEN Bad("igc|decode|headers")
+  ELSE IF ~HdrMatch(c.lines, 1, r.hdrs, 1) THEN Bad("igc|decode|headers")
   ELSE OK
 VLines(r) == VLinesC(r, r.case, TRUE)
 \* generated line sequences (seeded; H records, long flights with several day roll-overs): the decoder model of IGC.tla is
@@ -41,21 +68,24 @@ VGLines(r) ==
   VLinesC(r, [lines |-> r.case.lines, nfix |-> Len(s.fixes), nerr |-> TotalErrors(s), fixes |-> s.fixes], ~s.backhdr)
 PoleClass(tr) == IF \E i \in DOMAIN tr : Abs(tr[i].latq) = 90 * 6000000 \/ Abs(tr[i].lonq) = 180 * 6000000 THEN "|pole-or-antimeridian" ELSE ""
 Year2(tr) == IF \E i \in DOMAIN tr : tr[i].t[1] < DaysFromCivil(2000, 1, 1) THEN "|19yy" ELSE ""
+\* encev: "panic" when the ENCODER panicked (nothing was read back then).  The statement promises totality for Read only and
+\* speaks of the tracks of the quantifier: for a track outside that domain (decreasing times, positions / dates out of range)
+\* nothing is demanded of the encoder; whatever it wrote, reading that back must still be total.
+EncPanic(r) == "encev" \in DOMAIN r /\ r.encev # "ok"
 VTracks(r) ==
   LET tr == r.case.track IN
-  IF r.ev # "ok" THEN Bad("igc|roundtrip|" \o r.ev)
+  IF ~InDomain(tr) /\ EncPanic(r) THEN OK
+  ELSE IF r.ev # "ok" THEN Bad("igc|roundtrip|" \o r.ev)
   ELSE IF ~Whole(r) THEN Bad("igc|roundtrip|not-whole-fixes")
   ELSE IF ~ErrKindOK(r) THEN Bad("igc|roundtrip|error-kind")
-  ELSE IF ~InDomain(tr) THEN OK                   \* decreasing times, positions / dates outside the domain: totality only
+  ELSE IF ~InDomain(tr) THEN OK
   ELSE IF r.encerr # "" THEN Bad("igc|roundtrip|encode-error")
   ELSE IF Len(r.got) # Len(tr) THEN Bad("igc|roundtrip|fix-count" \o PoleClass(tr))
   ELSE IF ~RoundTripOK(tr, r.got) THEN
          Bad("igc|roundtrip|" \o (IF \E i \in DOMAIN tr : r.got[i].t # tr[i].t THEN "timestamp" \o Year2(tr)
                                   ELSE IF \E i \in DOMAIN tr : ~AltOK(tr[i], r.got[i]) THEN "altitude"
                                   ELSE "position" \o PoleClass(tr)))
-  \* the headers read back: the date of every new UTC day, in order (hdates: the first six characters of the value of every
-  \* DTE header; a writer that repeats a date header is not an alarm)
-  ELSE IF Dedup(r.hdates, 1) # TrackDates(tr) THEN Bad("igc|roundtrip|headers")
+  \* (which date headers the writer emitted is not part of the round trip: fix count, positions, timestamps, altitudes)
   ELSE OK
 \* arbitrary byte streams (mutated files, forged I records, random bytes, odd line endings, ...): totality and whole fixes only
 VBytes(r) == IF r.ev # "ok" THEN Bad("igc|bytes|" \o r.ev) ELSE IF ~Whole(r) THEN Bad("igc|bytes|not-whole-fixes")
